@@ -72,13 +72,7 @@ def r_simple_key_fits(ctx, repo):
                   for n in walk_function(ck.node))
     # scanner window
     st = _method(repo, 'scanner.Scanner', 'stale_possible_simple_keys')
-    window = None
-    for n in walk_function(st.node):
-        if isinstance(n, ast.Compare) and len(n.ops) == 1 and isinstance(n.left, ast.BinOp) and isinstance(n.left.op, ast.Sub) \
-                and norm(n.left.left) == 'self.index':
-            k = _int_const(n.comparators[0])
-            if k is not None:
-                window = k if isinstance(n.ops[0], ast.Gt) else k - 1 if isinstance(n.ops[0], ast.GtE) else None
+    window = _simple_key_window(st)
     if window is None:
         raise AnalysisError('stale_possible_simple_keys: window constant not found')
     # worst-case expansion of one character in a double-quoted scalar: longest numeric escape template
@@ -109,6 +103,67 @@ def r_simple_key_fits(ctx, repo):
                   '("mapping values are not allowed here"): safe_dump writes a document safe_load rejects'
                   % (bound, expansion, n_fail, bound, window), inp="{'\\U0001F600' * %d: 1}" % n_fail)
     return rule
+
+
+def _simple_key_window(st):
+    """the largest distance `self.index - <index of the key>` at which stale_possible_simple_keys still keeps a possible
+    simple key.  Decided on the CFG, whatever the spelling of the staleness test (`if stale: discard`, a `continue` guard on
+    the negation, nested ifs): an atomic test compares that distance with an integer constant; after one of its outcomes
+    the key is always discarded (deleted from the table / the "could not find expected ':'" error) before the loop comes
+    round or the function ends, after the other it can be kept.  The window is the largest distance with the keeping outcome."""
+    import operator
+    cfg = CFG(st.node)
+    me = st.params[0] if st.params else 'self'
+
+    def is_distance(e):
+        return isinstance(e, ast.BinOp) and isinstance(e.op, ast.Sub) and isinstance(e.left, ast.Attribute) \
+            and e.left.attr == 'index' and isinstance(e.left.value, ast.Name) and e.left.value.id == me
+    # locals that only ever hold such a distance
+    bound = {}
+    for n in walk_function(st.node):
+        if isinstance(n, ast.Name) and isinstance(n.ctx, ast.Store):
+            p = getattr(n, '_parent', None)
+            good = isinstance(p, ast.Assign) and len(p.targets) == 1 and p.targets[0] is n and is_distance(p.value)
+            bound[n.id] = bound.get(n.id, True) and good
+    aliases = {k for k, v in bound.items() if v}
+
+    def discards(n):
+        if n.kind == 'raise':
+            return True
+        if n.kind != 'stmt' or n.ast is None:
+            return False
+        if isinstance(n.ast, ast.Delete) and any(isinstance(t, ast.Subscript) for t in n.ast.targets):
+            return True
+        return any(isinstance(y, ast.Call) and isinstance(y.func, ast.Attribute) and y.func.attr == 'pop' for y in own_exprs(n))
+    gone = [n for n in cfg.nodes if discards(n)]
+    if not gone:
+        return None
+    ends = {n for n in cfg.nodes if n.kind in ('for', 'loophead')} | set(cfg.normal_exits())
+
+    def can_keep(t, label):
+        starts = [m for (m, lab) in cfg.succ[t] if lab is label]
+        r = cfg.reach(starts, blocked=gone)
+        return any(x in r for x in ends)
+    ops = {ast.Lt: operator.lt, ast.LtE: operator.le, ast.Gt: operator.gt, ast.GtE: operator.ge}
+    flip = {ast.Lt: ast.Gt, ast.LtE: ast.GtE, ast.Gt: ast.Lt, ast.GtE: ast.LtE}
+    windows = []
+    for t in cfg.nodes:
+        c = t.ast
+        if t.kind != 'test' or not isinstance(c, ast.Compare) or len(c.ops) != 1:
+            continue
+        l, r, op = c.left, c.comparators[0], type(c.ops[0])
+        if _int_const(l) is not None:
+            l, r, op = r, l, flip.get(op)
+        k = _int_const(r)
+        if k is None or op not in ops or not (is_distance(l) or (isinstance(l, ast.Name) and l.id in aliases)):
+            continue
+        keep_t, keep_f = can_keep(t, True), can_keep(t, False)
+        if keep_t == keep_f:
+            continue            # this test does not decide the fate of the key
+        kept = [d for d in (k - 1, k, k + 1) if ops[op](d, k) is keep_t]
+        if k - 1 in kept and k + 1 not in kept:
+            windows.append(max(kept))
+    return min(windows) if windows else None
 
 
 # --------------------------------------------------------------------------------------------- R-BLOCK-HINT-LEADING
@@ -204,34 +259,56 @@ def r_analyze_special(ctx, repo):
     if not sets:
         raise AnalysisError('analyze_scalar: no assignment of the special-character flag inside the character loop')
 
-    def special(c, allow_unicode):
-        """True / False / None: is the flag set for character c (position: middle of the text)?"""
-        res = False
-        for s in sets:
-            conds = []
-            for iff, br in A.guarding_ifs(s, loop):
-                conds.append((iff.test, br == 'body'))
-            # elif chains: being in the orelse of an earlier if means that test was false (guarding_ifs reports 'orelse')
-            val = True
+    text = f.params[1] if len(f.params) > 1 else None
+    me = f.params[0] if f.params else 'self'
 
-            def atom(node):
-                if norm(node) == 'self.allow_unicode':
-                    return allow_unicode
-                names = {x.id for x in ast.walk(node) if isinstance(x, ast.Name)}
-                if names and names <= set(cvars):
-                    return CW.eval_cond(repo, node, {v: c for v in cvars})
-                return None
-            for t, want in conds:
-                v = A.eval3(t, atom)
-                if v is None:
-                    val = None if val is not False else False
-                elif v != want:
-                    val = False
-            if val is True:
-                return True
-            if val is None:
-                res = None
-        return res
+    def one_pass(allow_unicode):
+        """the body of the per-character loop as one pass for the current character: the option is a constant and the
+        statement that fetches the current character (ch = text[<index>]) is dropped, the character being given."""
+        class T(ast.NodeTransformer):
+            def visit_Attribute(self, node):
+                if node.attr == 'allow_unicode' and isinstance(node.value, ast.Name) and node.value.id == me \
+                        and isinstance(node.ctx, ast.Load):
+                    return ast.Constant(allow_unicode)
+                self.generic_visit(node)
+                return node
+
+            def visit_Assign(self, node):
+                if len(node.targets) == 1 and isinstance(node.targets[0], ast.Name) and node.targets[0].id in cvars \
+                        and isinstance(node.value, ast.Subscript) and isinstance(node.value.value, ast.Name) \
+                        and node.value.value.id == text and isinstance(node.value.slice, ast.Name):
+                    return ast.copy_location(ast.Pass(), node)
+                self.generic_visit(node)
+                return node
+        return [ast.fix_missing_locations(T().visit(_plain_copy(s))) for s in loop.body]
+    passes = {True: one_pass(True), False: one_pass(False)}
+
+    def special(c, allow_unicode):
+        """True / False / None: does every way through one pass of the loop for character c (somewhere in the text: position,
+        neighbours and what was seen before are unknown) leave a double-quotes-only flag set?  The pass is interpreted
+        statement by statement, so it does not matter whether the flag is set under the character tests themselves, through
+        an intermediate local that holds the verdict, or in an if / elif chain."""
+        it = CW.Interp(repo, None, '\uffff', '<none>', None)
+        env = {v: CW.C(c) for v in cvars}
+        env.update({fl: CW.C(False) for fl in flag})
+        try:
+            ends = it.run_block(passes[allow_unicode], CW.State(env), 0)
+        except (CW.Budget, AnalysisError):
+            return None
+        ends = [(kind, st) for kind, val, st in ends if kind != 'raise']
+        if not ends:
+            return None
+        verdicts = [any(CW.truth(st.env.get(fl, CW.UNK)) is True for fl in flag) for kind, st in ends]
+        for fl in flag:
+            if any(CW.truth(st.env.get(fl, CW.UNK)) is True for kind, st in ends):
+                hits[fl] = hits.get(fl, 0) + 1
+        if all(verdicts):
+            return True
+        return False if not any(verdicts) else None
+    hits = {}
+    if special('a', True) is not False or special('a', False) is not False:
+        raise AnalysisError('analyze_scalar: a pass of the character loop for the letter "a" cannot be shown to leave the '
+                            'double-quotes-only flags alone (the classification is not understood)')
     problems = []
     if special('\ufeff', True) is not True:
         problems.append(('\ufeff', 'the byte order mark U+FEFF is written raw with allow_unicode: at the start of the stream the '
@@ -246,10 +323,13 @@ def r_analyze_special(ctx, repo):
             problems.append((c, 'the character %r, which the reader refuses as non-printable, is not marked special: it is '
                                 'written raw and the document cannot be read back' % c))
             break
+    # report at the flag that does the classifying (the one most probe characters raise), not at a flag for combinations
+    main = max(flag, key=lambda fl: (hits.get(fl, 0), fl))
+    sets = [s for s in sets if any(isinstance(t, ast.Name) and t.id == main for t in s.targets)] or sets
     if problems:
         for c, why in problems:
             rule.fail('%s|special|%04x' % (f.qualname, ord(c)), f.module.rel, sets[0].lineno, f.qualname,
-                      '%s = True' % flag[0], why)
+                      '%s = True' % main, why)
     else:
         rule.ok(f.loc(sets[0]), 'BOM, controls and (without allow_unicode) non-ASCII force double quotes (%d probe characters)' % 14)
     return rule
@@ -997,6 +1077,36 @@ def r_timestamp_int_fields(ctx, repo):
     f = _method(repo, 'constructor.SafeConstructor', 'construct_yaml_timestamp')
     cfg = CFG(f.node)
 
+    def unpacked_int(target, value, name, d, depth):
+        """`<target> = <value>` with a flat tuple target: is what `name` receives an int?  A display of the same length gives
+        the element at the same position; a comprehension / generator / map(int, ...) gives the same kind of element to
+        every position."""
+        if any(not isinstance(t, ast.Name) for t in target.elts):
+            return False
+        pos = [i for i, t in enumerate(target.elts) if t.id == name]
+        while isinstance(value, ast.Call) and isinstance(value.func, ast.Name) and value.func.id in ('list', 'tuple') \
+                and len(value.args) == 1 and not value.keywords:
+            value = value.args[0]
+        if isinstance(value, (ast.Tuple, ast.List)):
+            if len(value.elts) != len(target.elts) or any(isinstance(x, ast.Starred) for x in value.elts):
+                return False
+            return bool(pos) and all(is_int(value.elts[i], [d], depth) for i in pos)
+        if isinstance(value, (ast.ListComp, ast.GeneratorExp, ast.SetComp)):
+            # the comprehension's own variables are not locals of the function: they may only occur below a converting call
+            own = {x.id for g in value.generators for x in ast.walk(g.target) if isinstance(x, ast.Name)}
+
+            def exposed(x):
+                if isinstance(x, ast.Name):
+                    return x.id in own
+                if isinstance(x, ast.Call) and norm(x.func) in ('int', 'len', 'ord'):
+                    return False
+                return any(exposed(y) for y in ast.iter_child_nodes(x))
+            return not exposed(value.elt) and is_int(value.elt, [d], depth)
+        if isinstance(value, ast.Call) and isinstance(value.func, ast.Name) and value.func.id == 'map' and len(value.args) == 2 \
+                and isinstance(value.args[0], ast.Name) and value.args[0].id in ('int', 'len', 'ord'):
+            return True
+        return False
+
     def is_int(e, at, depth=0):
         if depth > 8:
             return False
@@ -1029,6 +1139,10 @@ def r_timestamp_int_fields(ctx, repo):
                 a = d.ast
                 if isinstance(a, ast.Assign) and len(a.targets) == 1 and isinstance(a.targets[0], ast.Name):
                     if not is_int(a.value, [d], depth + 1):
+                        return False
+                elif isinstance(a, ast.Assign) and len(a.targets) == 1 and isinstance(a.targets[0], (ast.Tuple, ast.List)):
+                    # unpacking: the element of the right-hand side that lands in this name is int-typed
+                    if not unpacked_int(a.targets[0], a.value, e.id, d, depth + 1):
                         return False
                 elif isinstance(a, ast.AugAssign) and isinstance(a.op, (ast.Add, ast.Sub, ast.Mult, ast.FloorDiv)):
                     if not is_int(a.value, [d], depth + 1):
@@ -1425,13 +1539,9 @@ def r_plain_start_consumed(ctx, repo):
                                               '(the scalar consumes input): no empty plain token can be produced without progress')
     cp = _method(repo, 'scanner.Scanner', 'check_plain')
     sp = _method(repo, 'scanner.Scanner', 'scan_plain')
-    rets = [n for n in walk_function(cp.node) if isinstance(n, ast.Return) and n.value is not None]
-    if len(rets) != 1:
-        raise AnalysisError('check_plain: expected a single returned condition')
-    cp_locals = {}
-    for n in walk_function(cp.node):
-        if isinstance(n, ast.Assign) and len(n.targets) == 1 and isinstance(n.targets[0], ast.Name):
-            cp_locals[n.targets[0].id] = n.value
+    if not any(isinstance(n, ast.Return) and n.value is not None for n in walk_function(cp.node)):
+        raise AnalysisError('check_plain: no returned condition')
+    cp_cfg = CFG(cp.node)
     # the stop test of scan_plain's innermost character loop: an `if <test>: break` whose test reads the loop's character
     stop = None
     chv = None
@@ -1481,6 +1591,42 @@ def r_plain_start_consumed(ctx, repo):
                     return self.visit(_plain_copy(locals_[node.id]))
                 return node
         return ast.fix_missing_locations(T().visit(_plain_copy(expr)))
+    def accepts(ch, nxt, flow):
+        """the answer of check_plain for the current character ch, the next character nxt and the flow level: the function
+        is executed on its CFG (locals hold the concretised expressions assigned to them, every atomic test is evaluated,
+        the first return reached gives the answer), so one returned condition, guard-clause returns and a result variable
+        all read the same.  None: not decidable."""
+        env = {}
+        node = cp_cfg.entry
+        for _ in range(4 * len(cp_cfg.nodes) + 8):
+            if node in (cp_cfg.exit_fall, cp_cfg.exit_return):
+                return False                    # falls off the end: None
+            if node.kind == 'return':
+                if node.ast.value is None:
+                    return False
+                return CW.eval_cond(repo, concretise(node.ast.value, ch, nxt, flow, env), {})
+            if node.kind == 'test':
+                v = CW.eval_cond(repo, concretise(node.ast, ch, nxt, flow, env), {})
+                if v is None:
+                    return None
+                nxts = [m for (m, lab) in cp_cfg.succ[node] if lab is v]
+            elif node.kind == 'stmt':
+                a = node.ast
+                if isinstance(a, ast.Assign) and all(isinstance(t, ast.Name) for t in a.targets):
+                    val = concretise(a.value, ch, nxt, flow, env)
+                    for t in a.targets:
+                        env[t.id] = val
+                elif not (isinstance(a, ast.Pass) or (isinstance(a, ast.Expr) and isinstance(a.value, ast.Constant))):
+                    raise AnalysisError('check_plain: statement not understood: %s' % norm(a).split('\n')[0][:60])
+                nxts = [m for (m, lab) in cp_cfg.succ[node] if lab != 'exc']
+            elif node.kind == 'entry':
+                nxts = [m for (m, lab) in cp_cfg.succ[node]]
+            else:
+                raise AnalysisError('check_plain: control flow not understood (%s at line %d)' % (node.kind, node.lineno))
+            if len(nxts) != 1:
+                raise AnalysisError('check_plain: control flow not understood at line %d' % node.lineno)
+            node = nxts[0]
+        raise AnalysisError('check_plain: no answer reached (loop?)')
     probes = sorted(set(CW.representative_chars(repo, 'scanner')))
     nexts = ['a', ' ', '\n', '\0', ',', ']', '}', ':', '?', '-', '#']
     bad = []
@@ -1488,7 +1634,7 @@ def r_plain_start_consumed(ctx, repo):
     for flow in (0, 1):
         for ch in probes:
             for nxt in nexts:
-                acc = CW.eval_cond(repo, concretise(rets[0].value, ch, nxt, flow, cp_locals), {})
+                acc = accepts(ch, nxt, flow)
                 if acc is not True:
                     continue
                 n += 1
